@@ -73,7 +73,10 @@ const unbounded = 1 << 20
 type eventCounter struct {
 	c       *Ctx
 	isEvent func(in ssa.Instruction) int
-	descend bool
+	// isEventR, if set, gives a [min,max] for an instruction (a site whose
+	// operand is chosen among alternatives may or may not be the event)
+	isEventR func(in ssa.Instruction) countRange
+	descend  bool
 	// credit: extra events accounted at the entry of a block (used to
 	// attribute a deferred listener's updates to the branch that registers it)
 	credit map[*ssa.BasicBlock]countRange
@@ -88,8 +91,13 @@ func (c *Ctx) newEventCounter(isEvent func(ssa.Instruction) int, descend bool) *
 }
 
 func (ec *eventCounter) instr(in ssa.Instruction) countRange {
-	n := ec.isEvent(in)
-	r := countRange{n, n}
+	var r countRange
+	if ec.isEventR != nil {
+		r = ec.isEventR(in)
+	} else {
+		n := ec.isEvent(in)
+		r = countRange{n, n}
+	}
 	if !ec.descend {
 		return r
 	}
